@@ -174,6 +174,18 @@ package curl
 // modelled as a sequence of exactly NL trit slices; 0 and 65 are the invalid sizes). p is the state just before the transformation: lane j of its first
 // 243 words holds src[j], the lanes beyond the batch hold zero trits, the other words are untouched.
 
+// (variant: nothing to absorb - a length of zero is accepted and leaves the sponge untouched)
+//@ func (c *Curl) Absorb(src []trinary.Trits, tritsCount int) (err error)
+//@   variant zerolen
+//@   props C06
+//@   repr uint
+//@   specialize NL = 1 64
+//@   seqlen src NL
+//@   requires tritsCount == 0
+//@   panics  when c.direction != SpongeAbsorbing
+//@   ensures isnil(err) && c.direction == old(c.direction)
+//@   ensures forall(i, 0, 729, c.l[i] == old(c.l[i]) && c.h[i] == old(c.h[i]))
+
 // (variant: a length that is not a multiple of 243 is refused and leaves the sponge untouched)
 //@ func (c *Curl) Absorb(src []trinary.Trits, tritsCount int) (err error)
 //@   variant badlen
@@ -206,6 +218,18 @@ package curl
 
 // Squeeze of one block: the state is transformed first exactly when the sponge was already squeezing;
 // lane j of the (new) state is written to a fresh 243-trit slice dst[j].
+// (variant: nothing to squeeze - a length of zero leaves the sponge, including its direction, untouched)
+//@ func (c *Curl) Squeeze(dst []trinary.Trits, tritsCount int) (err error)
+//@   variant zerolen
+//@   props C06
+//@   repr uint
+//@   specialize NL = 1 64
+//@   seqlen dst NL
+//@   requires tritsCount == 0
+//@   panics  never
+//@   ensures isnil(err) && c.direction == old(c.direction)
+//@   ensures forall(i, 0, 729, c.l[i] == old(c.l[i]) && c.h[i] == old(c.h[i]))
+
 // (variant: a length that is not a multiple of 243 is refused and leaves the sponge untouched)
 //@ func (c *Curl) Squeeze(dst []trinary.Trits, tritsCount int) (err error)
 //@   variant badlen
